@@ -7,8 +7,8 @@ MODE=$1; R=$(readlink -f "$2")
 [ "$(readlink -f .)" = /verif ] && { echo "refusing to rewrite /verif itself"; exit 2; }
 FILES=$(find harness extra/harness -name Cargo.toml -not -path '*/target/*'; echo lib/vlib.py lib/xlib.py)
 if [ $MODE = on ]; then
-  sed -i "s|\"/repo/|\"$R/|g; s|/repo/Cargo.lock|$R/Cargo.lock|g" $FILES; rm -f harness/Cargo.lock extra/harness/Cargo.lock
+  sed -i "s|\"/repo/|\"$R/|g; s|/repo/Cargo.lock|$R/Cargo.lock|g" $FILES
 else
-  sed -i "s|\"$R/|\"/repo/|g; s|$R/Cargo.lock|/repo/Cargo.lock|g" $FILES; rm -f harness/Cargo.lock extra/harness/Cargo.lock
+  sed -i "s|\"$R/|\"/repo/|g; s|$R/Cargo.lock|/repo/Cargo.lock|g" $FILES
 fi
 echo "privcopy $MODE $R"
